@@ -27,7 +27,7 @@ from typing import (
 
 import networkx
 
-from .. import n, tinydocutils
+from .. import n, tinydocutils, util
 from ..diagnostics import (
     CannotOpenFile,
     Diagnostic,
@@ -469,9 +469,12 @@ class HeadingMixin(Node):
         # to be unique, but it's not possible to do so in a repeatable fashion
         # without seeing the whole page, so doing that has to fall to the
         # renderer.
-        heading_id = tinydocutils.nodes.make_id(
-            "".join(node.get_text() for node in result)
-        )
+        heading_text_plain = "".join(node.get_text() for node in result)
+        heading_id = tinydocutils.nodes.make_id(heading_text_plain)
+        if not heading_id:
+            # A title without any ASCII letter ("123", "日本語"): fall back to the id which
+            # a heading written in reStructuredText would get, rather than an empty one
+            heading_id = util.make_html5_id(heading_text_plain.strip()).lower()
 
         heading = n.Heading((self.line,), [], heading_id)
         heading.children = result
